@@ -340,7 +340,7 @@ func zzValidationTx(wide bool) (*VersionedTransaction, *zzTxInfo) {
 			vr.Fill(d.Chain[:])
 			info.depAmt, d.Amount = zzNonNeg()
 			in.Deposit = d
-			if kinds == 4 && vr.Bool() { // decodable: both markers set
+			if vr.Bool() { // decodable: both markers set (classified as a mint)
 				in.Mint = &MintData{Group: mintGroupUniversal, Batch: vr.U64()}
 				info.mintAmt, in.Mint.Amount = zzNonNeg()
 			}
